@@ -42,7 +42,16 @@ def build_miri():
                            stdout=subprocess.PIPE, stderr=subprocess.STDOUT, text=True)
         shutil.rmtree(d, ignore_errors=True)
         if r.returncode != 0 or "stage=done" not in r.stdout:
+            m = re.search(r"error: (Undefined Behavior: [^\n]*)", r.stdout)
+            if m:
+                # the interpreter already objects on the smallest module: that is an observation, not a harness problem
+                frame = re.search(r"at (/\S+/src/delta/\S+?\.rs)", r.stdout)
+                return {"verdict": VIOLATED,
+                        "sig": "Miri: %s (%s)" % (re.sub(r"\d+", "N", m.group(1))[:160],
+                                                  "src/delta/" + frame.group(1).split("/src/delta/")[1] if frame else "?"),
+                        "detail": r.stdout[-1500:], "replay": {"hex": b"fn main()\n{\n}\n".hex(), "kind": "warm-up"}}
             raise common.HarnessError("miri warm-up failed:\n" + r.stdout[-2000:])
+        return None
     finally:
         lock.close()
 
@@ -167,9 +176,9 @@ def run_miri_batch(batch):
         m = re.search(r"error: (Undefined Behavior: [^\n]*)", err)
         kind, data = first_missing if first_missing else ("?", b"")
         if m:
-            frame = re.search(r"--> (/repo/\S+)", err)
+            frame = re.search(r"--> (/\S+?/src/delta/\S+)", err)
             out.append({"verdict": VIOLATED,
-                        "sig": "Miri: %s (%s)" % (re.sub(r"\d+", "N", m.group(1))[:160], frame.group(1).split(":")[0] if frame else "?"),
+                        "sig": "Miri: %s (%s)" % (re.sub(r"\d+", "N", m.group(1))[:160], "src/delta/" + frame.group(1).split(":")[0].split("/src/delta/")[1] if frame else "?"),
                         "detail": err[-1500:], "replay": {"hex": data.hex(), "kind": kind}})
         elif "panicked at" in err:
             pm = re.search(r"panicked at ([^\n]*)\n([^\n]*)", err)
@@ -203,7 +212,7 @@ def run_asan_batch(batch):
         kind, data = missing[0] if missing else ("?", b"")
         if "AddressSanitizer" in r.stderr:
             head = re.search(r"ERROR: AddressSanitizer: ([^\n]*)", r.stderr)
-            frame = re.search(r"(/repo/src/[^\s:]+)", r.stderr)
+            frame = re.search(r"/(src/(?:delta|alpha)/[^\s:]+)", r.stderr)
             if head and "stack-overflow" in head.group(1):
                 # deep recursion is the native monitor's business (known findings there)
                 out.append({"verdict": None, "cov": {"asan_stack_overflow": 1}})
@@ -224,7 +233,9 @@ def run(run_obj, tier, seed):
     workdir = tempfile.mkdtemp(prefix="pv-c15-", dir=common.TARGET)
     extra = {}
     try:
-        build_miri()
+        early = build_miri()
+        if early is not None:
+            run_obj.feed(early)
         items = miri_inputs(tier, seed)
         n = common.NPROC
         batches = [(workdir, i, items[i::n]) for i in range(n) if items[i::n]]
@@ -244,7 +255,7 @@ def run(run_obj, tier, seed):
                 continue
             run_obj.feed(r)
         extra["asan_inputs_executed"] = int(run_obj.counters.get("asan_inputs", 0))
-        if extra["miri_inputs_interpreted"] < 10:
+        if extra["miri_inputs_interpreted"] < 10 and not run_obj.violations:
             raise common.HarnessError("Miri interpreted only %d inputs" % extra["miri_inputs_interpreted"])
     finally:
         shutil.rmtree(workdir, ignore_errors=True)
